@@ -50,9 +50,11 @@ DEVIATIONS.update({
     'StoreFaultUntracked': ('failed-storeblob', FLAVOURS, 'NextRace', dict(NBlob=1, Atoms=('a',), MaxTid=4, MaxSp=1), 'NoViolation'),
     'StoreFailLeaks': ('tmp-working-copy', FLAVOURS, 'NextTxn', dict(NBlob=1, Atoms=('a',), MaxTid=5, MaxSp=1), 'NoViolation'),
     'UndoTempLeaks': ('tmp-undo-temp', ('mixin',), 'NextRace', dict(NBlob=1, Atoms=('a',), MaxTid=5, MaxSp=1), 'NoViolation'),
-    'PackWipesOidDir': ('pack-wipes-oid-directory', ('mixin',), 'NextHist', dict(NBlob=1, Atoms=('a',), MaxTid=6, MaxSp=1), 'NoViolation'),
+    'PackWipesOidDir': ('pack-wipes-oid-directory', ('mixin',), 'NextLink', dict(NBlob=1, Atoms=('a',), MaxTid=6, MaxSp=1), 'NoViolation'),
     'PackIgnoresInFlight': ('pack-during-commit', ('wrapmap',), 'NextRace', dict(NBlob=1, Atoms=('a',), MaxTid=5, MaxSp=1), 'NoViolation'),
 })
+# Connection / mixin-code deviations: the same calls and states on every flavour (one TLC run, replayed on each)
+SAME_ON_ALL = ('SpbPerSerial', 'StoreFaultUntracked', 'StoreFailLeaks')
 WRAPPERS = ('wrapmap', 'wrapfile')
 WRONG = ('store', 'storeBlob', 'tpc_vote', 'tpc_finish', 'tpc_abort')
 TEXT = {
@@ -479,6 +481,29 @@ def judge(ctx, out, cov):
                     replay=dict(rep, script=to_script(v['prefix'])))
 
 
+def design_jobs(q, sc):
+    """1. the design (deviation constants cleared), exhaustive on small constants"""
+    small = dict(NBlob=1, Atoms=('a',), MaxLen=2)
+    jobs = []
+    for fl in FLAVOURS:
+        rc = dict(REPAIRED, **small)
+        if fl == 'mixin':
+            # (with the deviation constants cleared the two flavours differ in Pack and Undo only, which NextTxn lacks)
+            jobs.append(('mc', ('design-%s-txn' % fl, bd.consts(fl, MaxTid=4, MaxSp=1, **rc), 'NextTxn', DESIGN_INV, DESIGN_PROPS, 3, 1500, sc)))
+            jobs.append(('mc', ('design-%s-sp2' % fl, bd.consts(fl, MaxTid=3, MaxSp=2, **rc), 'NextTxn', DESIGN_INV, DESIGN_PROPS, 2, 1500, sc)))
+        jobs.append(('mc', ('design-%s-hist' % fl, bd.consts(fl, MaxTid=4 if q else 5, MaxSp=1, KeepOld=(fl == 'mixin'), **rc), 'NextHist',
+                            DESIGN_INV, DESIGN_PROPS, 3, 3000, sc)))
+        jobs.append(('mc', ('design-%s-race' % fl, bd.consts(fl, MaxTid=5 if q else 6, MaxSp=1, **rc), 'NextRace',
+                            DESIGN_INV, DESIGN_PROPS, 3, 3000, sc)))
+        if not q:
+            jobs.append(('mc', ('design-%s-hist-nopack' % fl, bd.consts(fl, MaxTid=6, MaxSp=1, **rc), 'NextHistNoPack',
+                                DESIGN_INV, DESIGN_PROPS, 3, 3000, sc)))
+            if fl == 'mixin':
+                jobs.append(('mc', ('design-%s-txn2' % fl, bd.consts(fl, MaxTid=4, MaxSp=2, **dict(rc, Atoms=('a', 'b'))), 'NextTxn',
+                                    DESIGN_INV[:-1], DESIGN_PROPS, 4, 3000, sc)))
+    return jobs
+
+
 def cex_steps(trace):
     steps = [{'action': s['action'], 'args': s['args'], 'state': s['state']} for s in trace]
     steps[0]['action'] = 'Init'
@@ -495,15 +520,24 @@ def run(ctx):
 
     # ---- 2. the deviations: TLC's counterexample with the constant set, replayed on this tree ------------------
     jobs = []
+    shared = {}          # (deviation that does not depend on the storage) -> the flavours that replay the one counterexample
     for dev, (fid, flavours, next_, kc, inv) in DEVIATIONS.items():
         for fl in flavours:
+            if dev in SAME_ON_ALL and fl != flavours[0]:
+                shared.setdefault(dev, []).append(fl)
+                continue
             c = bd.consts(fl, **dict(REPAIRED, **dict(kc, **{dev: True})))
             jobs.append(('mc', ('cex-%s-%s' % (fid, fl), c, next_, [inv], [], 1, 300, sc)))
+    ncex = len(jobs)
+    jobs += design_jobs(q, sc)                   # (the exhaustive runs of the design do not wait for the outcome)
     as_code = {fl: dict(REPAIRED) for fl in FLAVOURS}
     cov = _new_cov()
     cexs = {}
     repaired_jobs = []
-    for (kind, a), r in zip(jobs, par.pmap(_job, jobs)):
+    first = par.pmap(_job, jobs)
+    design_out = first[ncex:]
+    replays = []
+    for (kind, a), r in zip(jobs[:ncex], first[:ncex]):
         name, c = a[0], a[1]
         dev = next(d for d in DEVIATIONS if c[d])
         inv = DEVIATIONS[dev][4]
@@ -511,6 +545,11 @@ def run(ctx):
         if r['violation'] != inv:
             raise tlc.TLCError('%s: with %s = TRUE TLC should exhibit a violation of %s, got %s\n%s' % (
                 name, dev, inv, r['violation'], r['tail']))
+        replays.append((name, c, r))
+        for fl in shared.get(dev, ()):
+            replays.append(('cex-%s-%s' % (DEVIATIONS[dev][0], fl), dict(c, Flavour=fl), r))
+    for name, c, r in replays:
+        dev = next(d for d in DEVIATIONS if c[d])
         x = bd.replay_behaviour((cex_steps(r['trace']), c, os.path.join(sc, 'rp-' + name), {}))
         follows = x['mismatch'] is None and x['steps'] == len(r['trace'])
         cexs[name] = {'deviation': dev, 'finding': DEVIATIONS[dev][0], 'flavour': c['Flavour'], 'calls': x['sig'],
@@ -536,24 +575,8 @@ def run(ctx):
             # when the check was built and reports where the code leaves it
             as_code[out['flavour']][cexs[name]['deviation']] = True
 
-    # ---- 1 + 3. the design (exhaustive) and conformance, side by side -----------------------------------------
+    # ---- 3. conformance ---------------------------------------------------------------------------------------
     jobs = []
-    for fl in FLAVOURS:
-        rc = dict(REPAIRED, **small)
-        if fl == 'mixin':
-            # (with the deviation constants cleared the two flavours differ in Pack and Undo only, which NextTxn lacks)
-            jobs.append(('mc', ('design-%s-txn' % fl, bd.consts(fl, MaxTid=4, MaxSp=1, **rc), 'NextTxn', DESIGN_INV, DESIGN_PROPS, 3, 1500, sc)))
-            jobs.append(('mc', ('design-%s-sp2' % fl, bd.consts(fl, MaxTid=3, MaxSp=2, **rc), 'NextTxn', DESIGN_INV, DESIGN_PROPS, 2, 1500, sc)))
-        jobs.append(('mc', ('design-%s-hist' % fl, bd.consts(fl, MaxTid=4 if q else 5, MaxSp=1, KeepOld=(fl == 'mixin'), **rc), 'NextHist',
-                            DESIGN_INV, DESIGN_PROPS, 3, 3000, sc)))
-        jobs.append(('mc', ('design-%s-race' % fl, bd.consts(fl, MaxTid=5 if q else 6, MaxSp=1, **rc), 'NextRace',
-                            DESIGN_INV, DESIGN_PROPS, 3, 3000, sc)))
-        if not q:
-            jobs.append(('mc', ('design-%s-hist-nopack' % fl, bd.consts(fl, MaxTid=6, MaxSp=1, **rc), 'NextHistNoPack',
-                                DESIGN_INV, DESIGN_PROPS, 3, 3000, sc)))
-            if fl == 'mixin':
-                jobs.append(('mc', ('design-%s-txn2' % fl, bd.consts(fl, MaxTid=4, MaxSp=2, **dict(rc, Atoms=('a', 'b'))), 'NextTxn',
-                                    DESIGN_INV[:-1], DESIGN_PROPS, 4, 3000, sc)))
     nsim = 16 if q else 700
     nrand = 100 if q else 3000
     for fl in FLAVOURS:
@@ -590,6 +613,7 @@ def run(ctx):
     # long jobs first
     jobs.sort(key=lambda j: (j[0] != 'mc', 'NextPack' not in j[1][0]))
     results = par.pmap(_job, jobs)
+    jobs, results = [('mc', (o['name'],)) for o in design_out] + jobs, design_out + results
     design = {}
     if os.environ.get('ZV_C13_TIMING'):
         for (kind, a), out in zip(jobs, results):
@@ -609,7 +633,7 @@ def run(ctx):
     for fl in FLAVOURS:
         need = [x for x in bd.ALL_ACTIONS if (fl in UNDO or not x.startswith('U')) and (fl != 'wrapfile' or x != 'Pack')
                 and (fl in WRAPPERS or x not in ('OtherAbort', 'OtherFinish', 'Late'))
-                and (x != 'Late' or as_code[fl]['LateBookkeeping']) and (x != 'PackDuring' or fl == 'wrapmap')]      # (no late turn in the repaired model)
+                and (x != 'Late' or as_code[fl]['LateBookkeeping']) and (x != 'PackDuring' or (fl == 'wrapmap' and as_code[fl]['PackIgnoresInFlight']))]      # (no late turn in the repaired model)
         miss = [x for x in need if not cov['actions'][fl].get(x)]
         if miss and not cov['mismatches']:
             raise RuntimeError('%s: actions never replayed: %s' % (fl, miss))
